@@ -180,10 +180,11 @@ def outcomes (T : Int) : Cfg → List Step → List Outcome
   | c, .event it :: rest => outcomeAt T c it :: outcomes T (next T c (.event it)) rest
   | c, .retire t :: rest => outcomes T (next T c (.retire t)) rest
 
-/-- Time sanity of one step: the clock does not run backwards, a PATCH is applied before the
-    processor returns, and the worker retires only when its idle wait has timed out. -/
+/-- Time sanity of one step: the clock does not run backwards, a PATCH is applied after the
+    iteration began and before the processor returns (`tp` = `tret` by convention when nothing was
+    patched), and the worker retires only when its idle wait has timed out. -/
 def okStep (idle : Int) (c : Cfg) : Step → Bool
-  | .event it => decide (c.clock ≤ it.now) && decide (it.now ≤ it.tret) && decide (it.tp ≤ it.tret)
+  | .event it => decide (c.clock ≤ it.now) && decide (it.now ≤ it.tret) && decide (it.tp ≤ it.tret) && decide (it.now ≤ it.tp)
   | .retire t => decide (c.clock ≤ t) && decide (c.clock + idleTimeout idle c.s.deadline c.clock ≤ t)
 
 def wf (T idle : Int) : Cfg → List Step → Bool
